@@ -2639,6 +2639,23 @@ func (c *ChannelArbitrator) resolveContract(currentContract ContractResolver) {
 	log.Tracef("ChannelArbitrator(%v): attempting to resolve %T",
 		c.cfg.ChanPoint, currentContract)
 
+	// If the contract was already checkpointed as resolved before a
+	// restart, the only thing left to do is to remove it from the log and
+	// let the arbitrator re-examine its state.
+	if currentContract.IsResolved() {
+		err := c.log.ResolveContract(currentContract)
+		if err != nil {
+			log.Errorf("unable to resolve contract: %v", err)
+		}
+
+		select {
+		case c.resolutionSignal <- struct{}{}:
+		case <-c.quit:
+		}
+
+		return
+	}
+
 	// Until the contract is fully resolved, we'll continue to iteratively
 	// resolve the contract one step at a time.
 	for !currentContract.IsResolved() {
